@@ -83,6 +83,7 @@ def seg_case(draw, tier="quick"):
     samp = draw(gen.sampling(shape))
     wl = samp["wavelength"]
     amp, opd, mask = draw(gen.aperture(shape, wl, min_samples=4))
+    amp = amp * draw(gen.scales())
     labels, kind = draw(gen.partition(mask.astype(bool), kmax=5))
     labels, nfix = merge_single_sample_segments(labels)
     second = None
